@@ -1224,6 +1224,8 @@ def strip_ctx(c):
 
 def base_rule_name(n):
     """the implicit rule is called `<rules file name>/default`: drop the file part"""
+    if n.endswith("/default"):
+        return "default"
     return n.split(".guard/")[-1] if ".guard/" in n else n
 
 
@@ -1558,3 +1560,180 @@ def run_C17(ctx):
 
 
 register("C17", ["Guard.Properties.C17"], run_C17, needs_cli=True)
+
+
+# =============================================================================== C16
+
+def run_C16(ctx):
+    res = Result("random rules files (some rule names defined several times) x 1..4 generated inputs x expectation assignments "
+                 "(all 3^k for k <= 2 rules, sampled beyond; some rules left without expectation) run through the real `test` "
+                 "command in plain / json / yaml / junit format and single-file / --dir layout, compared with the statuses "
+                 "`validate` (library entry point) assigns to the same rules on the same inputs, with the Lean classification "
+                 "model, and across formats; non-trivial = test run whose rules file parsed")
+    import yaml as _yaml
+    import xml.etree.ElementTree as ET
+    import re as _re
+    n = 1500 if ctx.thorough() else 160
+    rng = random.Random(ctx.seed)
+    scen = []
+    for i in range(n):
+        g = gen.G(ctx.seed * 1300021 + i, core=True)
+        doc = g.doc()
+        rules = g.rules_file(doc, depth=2, cfn=False)
+        if "r.guard" in rules:
+            continue
+        names = sorted(set(_re.findall(r"^rule (\w+)", rules, _re.M)))
+        if not names:
+            continue
+        inputs = [doc] + [gen.G(ctx.seed * 77 + i * 13 + k).doc() for k in range(rng.choice([0, 1, 2, 3]))]
+        specs = []
+        for k, inp in enumerate(inputs):
+            exp = {}
+            for nm in names:
+                if rng.random() < 0.75:
+                    exp[nm] = rng.choice(["PASS", "FAIL", "SKIP"])
+            specs.append({"name": "case%d" % k, "input": inp, "expectations": {"rules": exp}})
+        scen.append({"rules": rules, "names": names, "specs": specs, "layout": rng.choice(["single", "dir"])})
+    # validate side: statuses of every rule on every input (library entry point)
+    creqs, cown = [], []
+    for si, s in enumerate(scen):
+        for k, sp in enumerate(s["specs"]):
+            creqs.append({"id": len(creqs), "op": "case", "rules": s["rules"], "data": json.dumps(sp["input"])})
+            cown.append((si, k))
+    cresp = ctx.hp.map(creqs)
+    vstat = {}
+    for (si, k), r in zip(cown, cresp):
+        vstat[(si, k)] = vlib.obs_of_impl(r)
+    # test side: real binary, four formats
+    jobs, jown = [], []
+    for si, s in enumerate(scen):
+        tests = json.dumps(s["specs"]) if rng.random() < 0.5 else _yaml.safe_dump(s["specs"], default_flow_style=False)
+        for fmt in ("plain", "json", "yaml", "junit"):
+            oargs = [] if fmt == "plain" else ["-o", fmt]
+            if s["layout"] == "single":
+                jobs.append({"argv": ["test", "-r", "{DIR}/x.guard", "-t", "{DIR}/x_tests.yaml"] + oargs,
+                             "files": {"x.guard": s["rules"], "x_tests.yaml": tests}})
+            else:
+                jobs.append({"argv": ["test", "-d", "{DIR}"] + oargs,
+                             "files": {"x.guard": s["rules"], "tests/x_tests.yaml": tests}})
+            jown.append((si, fmt))
+    outs = dict(zip(jown, vlib.run_cli_many(jobs)))
+    # model classification from the validate statuses
+    mreqs, mown = [], []
+    for si, s in enumerate(scen):
+        for k, sp in enumerate(s["specs"]):
+            v = vstat[(si, k)]
+            if v["kind"] == "ok":
+                mreqs.append({"id": len(mreqs), "op": "test_classify", "statuses": v["rules"],
+                              "expectations": [[a, b] for a, b in sp["expectations"]["rules"].items()]})
+                mown.append((si, k))
+    mcls = dict(zip(mown, ctx.mp.map(mreqs)))
+
+    def canon_case(tc):
+        return {"passed": sorted((base_rule_name(p["name"]), p["evaluated"]) for p in tc["passed_rules"]),
+                "failed": sorted((base_rule_name(f["name"]), f["expected"], tuple(f["evaluated"])) for f in tc["failed_rules"]),
+                "skipped": sorted(base_rule_name(x["name"]) for x in tc["skipped_rules"])}
+
+    for si, s in enumerate(scen):
+        res.evaluations += 1
+        oj = outs[(si, "json")]
+        vs = [vstat[(si, k)] for k in range(len(s["specs"]))]
+        info = {"rules": s["rules"], "specs": s["specs"], "layout": s["layout"]}
+        if any(v["kind"] != "ok" for v in vs):
+            res.stats["c16-skipped:" + ",".join(sorted({v["kind"] for v in vs}))] += 1
+            # evaluation error / parse error: test must not claim success
+            if oj["code"] == 0 and any(v["kind"] == "err" for v in vs):
+                res.judge_failures.append(dict(info, what="an input raises an evaluation error under validate but test exits 0", **{"class": "c16-error"}))
+            continue
+        try:
+            tj = json.loads(oj["stdout"])
+            if isinstance(tj, list):
+                tj = tj[0]
+            cases = [canon_case(tc) for tc in tj["test_cases"]]
+        except Exception as e:
+            res.judge_failures.append(dict(info, what="test -o json output is not the expected JSON (%s), exit %s" % (e, oj["code"]), stdout=oj["stdout"][:300], **{"class": "c16-json"}))
+            continue
+        res.nontrivial.add(si)
+        res.stats["c16-layout:" + s["layout"]] += 1
+        any_failed = False
+        for k, (sp, tc, v) in enumerate(zip(s["specs"], cases, vs)):
+            by = {}
+            for nm, st in v["rules"]:
+                by.setdefault(base_rule_name(nm), []).append(st)
+            exp = sp["expectations"]["rules"]
+            want = {"passed": [], "failed": [], "skipped": []}
+            for nm, sts in by.items():
+                if nm not in exp:
+                    want["skipped"].append(nm)
+                    continue
+                e = exp[nm]
+                met = (e != "SKIP" and e in sts) or (e == "SKIP" and all(x == "SKIP" for x in sts))
+                if met:
+                    want["passed"].append((nm, e))
+                else:
+                    want["failed"].append(nm)
+                    any_failed = True
+            got_failed = sorted(f[0] for f in tc["failed"])
+            if sorted(want["passed"]) != tc["passed"] or sorted(want["failed"]) != got_failed or sorted(want["skipped"]) != tc["skipped"]:
+                res.judge_failures.append(dict(info, what="test case %d: test reports %s but validate assigns %s with expectations %s" % (k, tc, by, exp), **{"class": "c16-verdict"}))
+            for f in tc["failed"]:
+                if list(f[2]) != by.get(f[0], []) and not (exp.get(f[0]) != "SKIP" and list(f[2]) == by.get(f[0], [])[:len(f[2])]):
+                    res.judge_failures.append(dict(info, what="test case %d: evaluated statuses of %s are %s under test but %s under validate" % (k, f[0], list(f[2]), by.get(f[0])), **{"class": "c16-status"}))
+            m = mcls.get((si, k))
+            if m is not None:
+                mc = {"passed": sorted((base_rule_name(o["name"]), o["evaluated"]) for o in m["outcomes"] if o["k"] == "passed"),
+                      "failed": sorted((base_rule_name(o["name"]), o["expected"], tuple(o["evaluated"])) for o in m["outcomes"] if o["k"] == "failed"),
+                      "skipped": sorted(base_rule_name(o["name"]) for o in m["outcomes"] if o["k"] == "skipped")}
+                if mc != tc:
+                    res.disagreements.append(dict(info, what="test classification: model %s vs binary %s (case %d)" % (mc, tc, k)))
+        if (oj["code"] == 7) != any_failed or (oj["code"] == 0) != (not any_failed):
+            res.judge_failures.append(dict(info, what="exit code %s but some expectation mismatched = %s" % (oj["code"], any_failed), **{"class": "c16-exit"}))
+        # formats agree
+        oy, op_, ox = outs[(si, "yaml")], outs[(si, "plain")], outs[(si, "junit")]
+        try:
+            ty = _yaml.safe_load(oy["stdout"].replace("{DIR}", "DIR"))
+            if isinstance(ty, list):
+                ty = ty[0]
+            if [canon_case(tc) for tc in ty["test_cases"]] != cases:
+                res.judge_failures.append(dict(info, what="YAML rendering of the test run differs from the JSON rendering", **{"class": "c16-format"}))
+        except Exception as e:
+            res.judge_failures.append(dict(info, what="test -o yaml output unreadable: %s" % e, **{"class": "c16-format"}))
+        if len({oj["code"], oy["code"], op_["code"], ox["code"]}) != 1:
+            res.judge_failures.append(dict(info, what="exit codes differ across formats: plain %s json %s yaml %s junit %s" % (op_["code"], oj["code"], oy["code"], ox["code"]), **{"class": "c16-format"}))
+        # plain: PASS/FAIL sections and no-expectation lines per test case
+        blocks = _re.split(r"^Test Case #\d+\n", op_["stdout"], flags=_re.M)[1:]
+        if len(blocks) == len(cases):
+            for b, tc in zip(blocks, cases):
+                sec, pl = None, {"PASS": [], "FAIL": [], "none": []}
+                for line in b.split("\n"):
+                    mm = _re.match(r"^\s+No Test expectation was set for Rule (\S+)", line)
+                    if mm:
+                        pl["none"].append(base_rule_name(mm.group(1)))
+                    elif _re.match(r"^\s+PASS Rules:", line):
+                        sec = "PASS"
+                    elif _re.match(r"^\s+FAIL Rules:", line):
+                        sec = "FAIL"
+                    else:
+                        mm = _re.match(r"^\s+(\S+): Expected = ", line)
+                        if mm and sec:
+                            pl[sec].append(mm.group(1))
+                if sorted(pl["PASS"]) != sorted(p[0] for p in tc["passed"]) or sorted(pl["FAIL"]) != sorted(f[0] for f in tc["failed"]) or sorted(pl["none"]) != tc["skipped"]:
+                    res.judge_failures.append(dict(info, what="plain rendering %s disagrees with JSON rendering %s" % (pl, tc), **{"class": "c16-format"}))
+        else:
+            res.judge_failures.append(dict(info, what="plain rendering has %d test cases, JSON %d" % (len(blocks), len(cases)), **{"class": "c16-format"}))
+        # junit: one testcase per (case, rule with expectation); failure element iff failed
+        try:
+            root = ET.fromstring(ox["stdout"])
+            got = sorted((t.get("id"), base_rule_name(t.get("name")), t.find("failure") is not None) for t in root.iter("testcase"))
+            want = sorted([(sp["name"], p[0], False) for sp, tc in zip(s["specs"], cases) for p in tc["passed"]] +
+                          [(sp["name"], f[0], True) for sp, tc in zip(s["specs"], cases) for f in tc["failed"]])
+            if got != want:
+                res.judge_failures.append(dict(info, what="JUnit cases %s disagree with JSON rendering %s" % (got, want), **{"class": "c16-format"}))
+        except ET.ParseError as e:
+            res.judge_failures.append(dict(info, what="JUnit output is not well-formed XML: %s" % e, **{"class": "c16-format"}))
+        if si < 2:
+            res.add_sample({"rules": s["rules"][:300], "cases": cases, "exit": oj["code"]})
+    return res
+
+
+register("C16", ["Guard.Properties.C16"], run_C16, needs_cli=True)
